@@ -40,22 +40,39 @@ def main():
         finally:
             sh('git -C /repo worktree remove --force %s' % wt)
             shutil.rmtree(wt, ignore_errors=True)
-        # against /repo itself
-        st = sh('git -C /repo status --porcelain')
-        if st.stdout.strip():
-            print('refusing: /repo is not clean'); sys.exit(2)
-        ap = sh('git -C /repo apply %s' % patch)
         checks = {}
-        try:
-            for p in ([prop] + [c for c in claimed if c != prop] if allp else [prop]):
-                r = sh('cd %s && SUPP_VERIF_KEEP_EVIDENCE=1 ./check %s' % (HERE, p), timeout=3600)
-                viol = [l for l in r.stdout.splitlines() if l.startswith('VIOLATION')]
-                failed = [l for l in r.stdout.splitlines() if l.startswith('FAILED')]
-                checks[p] = {'exit': r.returncode, 'violations': len(viol), 'first_failed': failed[0][:220] if failed else None,
-                             'reproduced': sum('no-failing-input-found' not in l for l in viol)}
-        finally:
-            sh('git -C /repo checkout -- .')
-            sh('git -C /repo clean -fdq supp tests')
+        if '--scratch' in sys.argv:
+            # same check, pointed at a scratch worktree that carries the change (SUPP_REPO); /repo is not touched
+            wt2 = tempfile.mkdtemp(prefix='supp-seed-')
+            os.rmdir(wt2)
+            try:
+                sh('git -C /repo worktree add -q %s HEAD' % wt2)
+                sh('git -C %s apply %s' % (wt2, patch))
+                for p in ([prop] + [c for c in claimed if c != prop] if allp else [prop]):
+                    r = sh('cd %s && ./check %s' % (HERE, p), timeout=3600, env=dict(os.environ, SUPP_REPO=wt2))
+                    viol = [l for l in r.stdout.splitlines() if l.startswith('VIOLATION')]
+                    failed = [l for l in r.stdout.splitlines() if l.startswith('FAILED')]
+                    checks[p] = {'exit': r.returncode, 'violations': len(viol), 'first_failed': failed[0][:220] if failed else None,
+                                 'reproduced': sum('no-failing-input-found' not in l for l in viol), 'mode': 'scratch worktree (SUPP_REPO)'}
+            finally:
+                sh('git -C /repo worktree remove --force %s' % wt2)
+                shutil.rmtree(wt2, ignore_errors=True)
+        else:
+            # against /repo itself
+            st = sh('git -C /repo status --porcelain')
+            if st.stdout.strip():
+                print('refusing: /repo is not clean'); sys.exit(2)
+            ap = sh('git -C /repo apply %s' % patch)
+            try:
+                for p in ([prop] + [c for c in claimed if c != prop] if allp else [prop]):
+                    r = sh('cd %s && SUPP_VERIF_KEEP_EVIDENCE=1 ./check %s' % (HERE, p), timeout=3600)
+                    viol = [l for l in r.stdout.splitlines() if l.startswith('VIOLATION')]
+                    failed = [l for l in r.stdout.splitlines() if l.startswith('FAILED')]
+                    checks[p] = {'exit': r.returncode, 'violations': len(viol), 'first_failed': failed[0][:220] if failed else None,
+                                 'reproduced': sum('no-failing-input-found' not in l for l in viol)}
+            finally:
+                sh('git -C /repo checkout -- .')
+                sh('git -C /repo clean -fdq supp tests')
         res['checks'] = checks
         res['caught_by'] = [p for p, c in checks.items() if c['exit'] == 1 and c['violations']]
         print(json.dumps(res, indent=1))
